@@ -136,6 +136,11 @@ def run_property(pid, tier, jobs, verbose=False, record_baseline=False):
                 if pid not in o["props"]:
                     continue
             obs.append(o)
+    # bounded stand-ins that held are reported under `bounded`, never among the discharged obligations
+    for o in extra:
+        if o.get("kind") == "bounded" and o["status"] == "held":
+            bounded.append({"what": o["id"], "bound": o.get("bound", ""), "hit": False, "output": o.get("detail", ""), "secs": o.get("secs", 0)})
+    extra = [o for o in extra if not (o.get("kind") == "bounded" and o["status"] == "held")]
     obs.extend(extra)
     if extra_hit is not None:
         obs.append(extra_hit)
